@@ -478,6 +478,8 @@ def run(cx, rep):
     # ---------------------------------------------------------------- C09.14
     rep.rule("C09.14", "in type position a local type declaration wins over an imported name")
     local_type_before_import_rule(cx, rep, "C09.14")
+    # ---------------------------------------------------------------- C09.16
+    explicit_before_star_rule(cx, rep, "C09.16")
     # ---------------------------------------------------------------- C09.15
     rep.rule("C09.15", "an answer of the host (module resolution, file lookup) is remembered under a key that carries every argument of the query")
     hits = memo_key_hits(cx.rs)
@@ -1034,3 +1036,58 @@ def memo_key_hits(F, all_files=False):
                 if missing:
                     out.append((g, "%s:%s" % (f.file, ins.get("line")), q.get("callee"), missing))
     return out
+
+
+# ---------------------------------------------------------------------------------------------------- C09.16
+def explicit_before_star_rule(cx, rep, rid):
+    """`export * from "./a"` re-exports the names of a.ts EXCEPT those the module exports itself, whether declared
+    here or re-exported by name (`export { X } from "./b"`): an explicit export always wins.  Decided for every lookup
+    function of the export tables that walks the `export *` targets of its module (a loop over the Vec of star
+    targets): each lookup in one of the module's OWN name tables is evaluated before that walk starts (evaluation
+    order over the typed HIR: receiver, arguments, `or_else` closures in chain order, statements in order)."""
+    F = cx.rs
+    from facts import walk as hwalk
+    from hirpath import eval_sequence
+    rep.rule(rid, "an explicit export of a module is found before the names brought in by `export *`")
+    n = 0
+    for g, t in sorted(F.hir.items()):
+        f = F.fns.get(g)
+        if f is None or f.kind == "Closure" or "/src/swc_tools/" not in (f.file or ""):
+            continue
+        seq = eval_sequence(t["body"])
+        idx = {id(x): i for i, x in enumerate(seq)}
+        def self_field(e):
+            while isinstance(e, dict) and e.get("k") in ("AddrOf", "Deref", "DropTemps", "Unary"):
+                e = e["e"]
+            if isinstance(e, dict) and e.get("k") == "Field" and isinstance(e.get("e"), dict):
+                b = e["e"]
+                while b.get("k") in ("AddrOf", "Deref", "DropTemps", "Unary"):
+                    b = b["e"]
+                if b.get("k") == "Path" and b.get("name") == "self":
+                    return e
+            return None
+        star_loops = []
+        for x in seq:
+            if x["k"] == "Match" and x.get("src") == "ForLoopDesugar" and x["scrut"].get("args"):
+                fl = [y for y in hwalk(x["scrut"]["args"][0]) if self_field(y) is not None and "Vec<" in (y.get("ty") or "") and "BffFileName" in (y.get("ty") or "")]
+                if fl:
+                    star_loops.append(x)
+            if x["k"] == "MethodCall" and (x.get("callee") or "").startswith("std::iter::Iterator::") and any(a_.get("k") == "Closure" for a_ in x.get("args") or []):
+                fl = [y for y in hwalk(x["recv"]) if self_field(y) is not None and "Vec<" in (y.get("ty") or "") and "BffFileName" in (y.get("ty") or "")]
+                if fl:
+                    star_loops.append(x)
+        if not star_loops:
+            continue
+        # evaluation of the star walk STARTS at its first inner node
+        star_start = min(min(idx.get(id(y), 10 ** 9) for y in hwalk(sl)) for sl in star_loops)
+        own = [x for x in seq if x["k"] == "MethodCall" and x.get("method") in ("get", "contains_key", "get_mut") and self_field(x["recv"]) is not None
+               and ("BTreeMap<" in (self_field(x["recv"]).get("ty") or "") or "HashMap<" in (self_field(x["recv"]).get("ty") or ""))]
+        if not own:
+            continue
+        n += 1
+        late = [x for x in own if idx[id(x)] > star_start]
+        rep.ob(rid, "%s/own-tables-first" % g.rsplit("::", 1)[-1], not late,
+               "%s consults its own table%s `%s` only after the walk over the `export *` targets: a name the module re-exports explicitly (`export { X } from \"./b\"`) is answered from a star target that happens to export the same name (`export * from \"./a\"`), where TypeScript takes the explicit one" % (
+                   g, "s" if len(late) > 1 else "", ", ".join(sorted({self_field(x["recv"])["name"] for x in late}))),
+               "%s:%s" % (f.file, late[0].get("line") if late else f.line), sample={"fn": g, "own_lookups": len(own), "after_the_star_walk": len(late)})
+    rep.floor(rid, "export lookups that walk the star targets", n, 2)
